@@ -87,6 +87,20 @@ EXC = {"IndexError": "E_Index", "ValueError": "E_Value", "TypeError": "E_Type", 
 # name -> (parameter kinds, return kind, pure?)   return kinds: Z L LL M P
 SIGS = {
     "_gap_spans": (["L", "L"], "LL", True),
+    "_update_lengths": (["L", "L", "L", "L"], "L", True),        # mutates its 2nd argument in place: the new value is returned
+    "merge_maps": (["M", "OPT"], "M", False),
+    "span_and_span": (["T2", "T2"], "OPAIR", False),
+    "coords_intersect": (["P", "P"], "P", False),
+    "coords_minus_coords": (["P", "P"], "P", False),
+    "shared_gaps:arr": (["P"], "P", False),
+    "shared_gaps:map": (["M"], "P", False),
+    "minus_gaps:arr": (["P"], "M", False),
+    "minus_gaps:map": (["M"], "M", False),
+    "joined_segments": (["P"], "M", False),
+    "from_aligned_segments": (["P", "Z"], "M", False),      # classmethod: cls(...) is the constructor
+    "gap_coords_to_map": (["D", "Z"], "M", False),
+    "nongap": ([], "GP", True),          # generator of Span(start, end): the list of (start, end)
+    "spans": ([], "GS", True),           # generator of Span / LostSpan: list ispan
     "__len__": ([], "Z", True),
     "get_gap_lengths": ([], "L", True),
     "get_seq_index": (["Z"], "Z", False),
@@ -100,9 +114,9 @@ SIGS = {
     "get_gap_coordinates": ([], "P", True),
     "get_gap_align_coordinates": ([], "P", True),
 }
-COQNAME = {"_gap_spans": "gap_spans", "__len__": "len", "__getitem__int": "getitem_int", "__getitem__slice": "getitem_slice",
+COQNAME = {"shared_gaps:arr": "shared_gaps_coords", "shared_gaps:map": "shared_gaps", "minus_gaps:arr": "minus_gaps_coords", "minus_gaps:map": "minus_gaps", "_gap_spans": "gap_spans", "_update_lengths": "update_lengths", "__len__": "len", "__getitem__int": "getitem_int", "__getitem__slice": "getitem_slice",
            "__add__": "add", "__mul__": "mul"}
-COQTYPE = {"Z": "Z", "L": "list Z", "LL": "(list Z * list Z)", "M": "imap", "P": "list (Z * Z)", "B": "bool"}
+COQTYPE = {"D": "list (Z * Z)", "OPAIR": "option (Z * Z)", "T2": "(Z * Z)", "GP": "list (Z * Z)", "GS": "list ispan", "OPT": "option Z", "Z": "Z", "L": "list Z", "LL": "(list Z * list Z)", "M": "imap", "P": "list (Z * Z)", "B": "bool"}
 
 
 def coqname(f):
@@ -134,7 +148,7 @@ class Fn:
             return v.t
         if v.kind == "Z":
             return f"negb ({v.t} =? 0)"
-        if v.kind in ("L", "P"):
+        if v.kind in ("L", "P", "D"):
             return f"negb (zlen {paren(v.t)} =? 0)"
         if v.kind == "OPT":
             return f"match {v.t} with Some v_ => negb (v_ =? 0) | None => false end"
@@ -146,6 +160,8 @@ class Fn:
         return self.truth(self.expr(e, env, binds), e)
 
     def need(self, v, kind, node):
+        if v.kind == "EMPTYLIST" and kind in ("L", "P"):
+            return V(kind, "[]", py=v.py)
         if v.kind != kind:
             fail(node, f"expected {kind}, found {v.kind}")
         return v
@@ -159,9 +175,17 @@ class Fn:
             if e.value is None:
                 return V("NONE")
             fail(e, f"constant {e.value!r}")
+        if isinstance(e, ast.Name) and e.id == "_empty" and e.id not in env:
+            if not self.tr.empty_is_none_pair:
+                fail(e, "_empty is not `None, None`")
+            return V("T", items=[V("NONE"), V("NONE")])
+        if isinstance(e, ast.Name) and e.id in ("LostSpan", "TerminalPadding") and e.id not in env:
+            return V("CLS", "lost")
         if isinstance(e, ast.Name):
             if e.id not in env:
                 fail(e, f"undefined or unsupported name {e.id}")
+            if env[e.id].kind == "OPC":
+                return self.opc(env[e.id].items[0], env[e.id].items[1], env, e)
             return env[e.id]
         if isinstance(e, ast.NamedExpr):
             v = self.expr(e.value, env, binds)
@@ -204,6 +228,10 @@ class Fn:
                     else:
                         t = "false"
                     parts.append(t if isinstance(op, ast.Is) else f"negb ({t})")
+                elif left.kind == "Z" and right.kind in ("OPT", "NONE") and isinstance(op, (ast.NotEq, ast.Eq)) and len(e.ops) == 1:
+                    # an int never equals None
+                    t = "false" if right.kind == "NONE" else f"match {right.t} with Some v_ => ({left.t} =? v_) | None => false end"
+                    return V("B", t if isinstance(op, ast.Eq) else f"negb ({t})")
                 elif left.kind == "Z" and right.kind == "L" and isinstance(op, ast.Eq) and len(e.ops) == 1:
                     return V("EQ", items=(right.t, left.t))
                 elif left.kind == "L" and right.kind == "Z" and isinstance(op, ast.Eq) and len(e.ops) == 1:
@@ -221,6 +249,14 @@ class Fn:
             return V("B", parts[0] if len(parts) == 1 else "(" + " && ".join(parts) + ")")
         if isinstance(e, ast.IfExp):
             a, b = self.expr(e.body, env, binds), self.expr(e.orelse, env, binds)
+            if a.kind == "CLS" and b.kind == "CLS":
+                # LostSpan / TerminalPadding: both are lost spans of the given length (termini_unknown is not modelled);
+                # the test must be free of effects
+                for n in ast.walk(e.test):
+                    if not isinstance(n, (ast.BoolOp, ast.And, ast.Or, ast.Compare, ast.Eq, ast.Name, ast.Attribute, ast.Constant,
+                                          ast.BinOp, ast.Sub, ast.Add, ast.Load, ast.Not, ast.UnaryOp)):
+                        fail(e, "test of a class-valued conditional expression")
+                return V("CLS", "lost")
             # `x if x is not None else d` on an optional bound
             if (isinstance(e.test, ast.Compare) and len(e.test.ops) == 1 and isinstance(e.test.ops[0], ast.IsNot)
                     and a.kind == "OPT" and b.kind == "Z" and ast.dump(e.test.left) == ast.dump(e.body)):
@@ -236,6 +272,10 @@ class Fn:
                 fail(e, "binary operator")
             if a.kind == "Z" and b.kind == "Z":
                 return V("Z", f"({a.t} {sym} {b.t})")
+            if a.kind == "P" and b.kind == "P" and sym == "+" and a.py and b.py:
+                return V("P", f"({a.t} ++ {b.t})", py=True)
+            if a.kind == "L" and b.kind == "L" and not a.py and not b.py and sym == "-":
+                return V("L", f"(sub2 {paren(a.t)} {paren(b.t)})")
             if a.kind == "L" and b.kind == "L":
                 if a.py and b.py and sym == "+":
                     return V("L", f"({a.t} ++ {b.t})", py=True)
@@ -251,13 +291,17 @@ class Fn:
             return V("T", items=[self.expr(x, env, binds) for x in e.elts])
         if isinstance(e, ast.List):
             items = [self.expr(x, env, binds) for x in e.elts]
+            if not items:
+                return V("EMPTYLIST", py=True)
             if all(v.kind == "Z" for v in items):
                 return V("L", "[" + "; ".join(v.t for v in items) + "]", py=True)
             if items and all(v.kind == "T" and len(v.items) == 2 and all(w.kind == "Z" for w in v.items) for v in items):
-                return V("P", "[" + "; ".join(f"({v.items[0].t}, {v.items[1].t})" for v in items) + "]")
+                return V("P", "[" + "; ".join(f"({v.items[0].t}, {v.items[1].t})" for v in items) + "]", py=True)
             if len(items) == 2 and all(v.kind == "L" for v in items):
                 return V("LPAIR", items=items)
             fail(e, "list literal")
+        if isinstance(e, ast.Dict) and not e.keys:
+            return V("D", "[]")
         if isinstance(e, ast.Attribute):
             return self.attribute(e, env, binds)
         if isinstance(e, ast.Subscript):
@@ -286,6 +330,8 @@ class Fn:
                 return parts[e.attr]
             fail(e, f"slice attribute {e.attr}")
         v = self.expr(e.value, env, binds)
+        if e.attr == "T" and v.kind == "P":
+            return V("T", items=[V("L", f"(map fst {paren(v.t)})"), V("L", f"(map snd {paren(v.t)})")])
         if e.attr == "T" and v.kind == "LPAIR":
             a, b = v.items
             return V("P", f"(combine {paren(a.t)} {paren(b.t)})")
@@ -314,6 +360,28 @@ class Fn:
             v = self.need(self.expr(e.value.value, env, binds), "L", e)
             return V("Z", f"(zlen {paren(v.t)})")
         a = self.expr(e.value, env, binds)
+        if a.kind == "OPAIR" and isinstance(e.slice, ast.Constant) and e.slice.value in (0, 1):
+            return self.opc(a.t, e.slice.value, env, e)
+        if a.kind == "P" and isinstance(e.slice, ast.UnaryOp) and isinstance(e.slice.op, ast.USub) \
+                and isinstance(e.slice.operand, ast.Constant) and e.slice.operand.value == 1:
+            return V("LASTROW", a.t)
+        if a.kind == "P" and not isinstance(e.slice, (ast.Slice, ast.Tuple)):
+            i = self.expr(e.slice, env, binds)
+            if i.kind == "Z":
+                return V("ROW", f"(np_row {paren(a.t)} {i.t})")
+        if a.kind in ("ROW", "LASTROW") and (isinstance(e.slice, ast.Constant) or isinstance(e.slice, ast.UnaryOp)):
+            j = self.expr(e.slice, env, binds)
+            if j.kind == "Z" and j.t in ("0", "1", "(-1)") and not (a.kind == "LASTROW" and j.t == "(-1)"):
+                row = a.t if a.kind == "ROW" else f"(np_row {paren(a.t)} (-1))"
+                return V("Z", f"({'fst' if j.t == '0' else 'snd'} {row})")
+        if a.kind == "P" and isinstance(e.slice, ast.Tuple) and len(e.slice.elts) == 2 and all(isinstance(x, ast.Slice) for x in e.slice.elts):
+            r_, c_ = e.slice.elts
+            if r_.lower is None and r_.upper is None and r_.step is None and c_.lower is None and c_.upper is None \
+                    and isinstance(c_.step, ast.UnaryOp) and isinstance(c_.step.op, ast.USub) and getattr(c_.step.operand, "value", None) == 1:
+                return V("P", f"(map (fun r_ => (snd r_, fst r_)) {paren(a.t)})")
+        if a.kind == "LASTROW" and isinstance(e.slice, ast.UnaryOp) and isinstance(e.slice.op, ast.USub) \
+                and isinstance(e.slice.operand, ast.Constant) and e.slice.operand.value == 1:
+            return V("Z", f"(last_end {paren(a.t)})")
         if a.kind != "L":
             fail(e, f"subscript of a {a.kind}")
         sl = e.slice
@@ -328,8 +396,18 @@ class Fn:
             # a basic slice of a numpy array is a VIEW of it (of a Python list: a copy)
             base = e.value.id if (isinstance(e.value, ast.Name) and not a.py) else None
             return V("L", f"(zslice {paren(a.t)} {lo} {hi})", py=a.py, extra=base)
-        i = self.need(self.expr(sl, env, binds), "Z", e)
+        i = self.expr(sl, env, binds)
+        if i.kind == "L" and not a.py:
+            return V("L", f"(np_take {paren(a.t)} {paren(i.t)})")
+        self.need(i, "Z", e)
         return V("Z", f"(pyget {paren(a.t)} {i.t})")
+
+    def opc(self, t, idx, env, node):
+        """component idx of the optional pair t: an int where t is known to be a pair, else only testable against None"""
+        known = env.get("$known:" + t)
+        if known:
+            return V("Z", known[idx])
+        return V("OPC", items=(t, idx))
 
     def bound(self, node, a, env, binds):
         # a negative literal counts from the end; anything else is read as non-negative
@@ -347,7 +425,7 @@ class Fn:
             if isinstance(args[0], ast.Name) and args[0].id in env and env[args[0].id].kind == "M":
                 return V("Z", f"(g_len {env[args[0].id].t})")
             v = self.expr(args[0], env, binds)
-            if v.kind in ("L", "P"):
+            if v.kind in ("L", "P", "D"):
                 return V("Z", f"(zlen {paren(v.t)})")
             fail(e, f"len of a {v.kind}")
         if fn in ("min", "max") and not kw:
@@ -357,10 +435,64 @@ class Fn:
             if len(vals) != 2 or any(v.kind != "Z" for v in vals):
                 fail(e, f"{fn} of something other than two ints")
             return V("Z", f"(Z.{fn} {vals[0].t} {vals[1].t})")
+        if fn in ("span_and_span", "coords_intersect", "coords_minus_coords") and not kw and len(args) == 2:
+            pk, rk, pure = SIGS[fn]
+            ts = []
+            for a, k in zip(args, pk):
+                v = self.expr(a, env, binds)
+                if k == "T2":
+                    if v.kind != "T" or len(v.items) != 2 or any(x.kind != "Z" for x in v.items):
+                        fail(e, "a pair of ints expected")
+                    ts.append(f"({v.items[0].t}, {v.items[1].t})")
+                else:
+                    ts.append(paren(self.need(v, k, e).t))
+            name = self.tmp("r")
+            binds.append((name, f"{coqname(fn)} " + " ".join(ts)))
+            return V(rk, name)
+        if fn == "list" and len(args) == 1 and not kw and isinstance(args[0], ast.Name):
+            v = self.expr(args[0], env, binds)
+            if v.kind in ("P", "L"):
+                return V(v.kind, v.t, py=True)
+        if fn == "cls" and self.name == "from_aligned_segments" and not args and set(kw) == {"gap_pos", "cum_gap_lengths", "parent_length"}:
+            gp = self.need(self.expr(kw["gap_pos"], env, binds), "L", e)
+            cl = self.need(self.expr(kw["cum_gap_lengths"], env, binds), "L", e)
+            pl = self.need(self.expr(kw["parent_length"], env, binds), "Z", e)
+            return V("RES", f"g_post_init_cum {paren(gp.t)} {paren(cl.t)} {pl.t}", extra="M")
+        if fn == "sorted" and len(args) == 1 and not kw:
+            v = self.expr(args[0], env, binds)
+            if v.kind in ("P", "D"):
+                return V("P", f"(sort_pairs {paren(v.t)})", py=True)
+            fail(e, f"sorted of a {v.kind}")
+        if fn == "range" and len(args) == 1 and not kw:
+            n = self.need(self.expr(args[0], env, binds), "Z", e)
+            return V("L", f"(zrange 0 {n.t})", py=True)
+        if fn == "numpy.empty" and len(args) == 1 and set(kw) <= {"dtype"} and not isinstance(args[0], ast.Tuple):
+            n = self.need(self.expr(args[0], env, binds), "Z", e)
+            return V("L", f"(np_empty {n.t})")
+        if fn == "list" and len(args) == 1 and isinstance(args[0], ast.Call) and dotted(args[0].func) == "zip" \
+                and len(args[0].args) == 1 and isinstance(args[0].args[0], ast.Starred):
+            v = self.need(self.expr(args[0].args[0].value, env, binds), "P", e)
+            return V("T", items=[V("L", f"(map fst {paren(v.t)})", py=True), V("L", f"(map snd {paren(v.t)})", py=True)])
+        if fn == "IndelMap" and not args and set(kw) == {"gap_pos", "gap_lengths", "parent_length"}:
+            gp = self.need(self.expr(kw["gap_pos"], env, binds), "L", e)
+            cl = self.need(self.expr(kw["gap_lengths"], env, binds), "L", e)
+            pl = self.need(self.expr(kw["parent_length"], env, binds), "Z", e)
+            return V("RES", f"g_post_init_len {paren(gp.t)} {paren(cl.t)} {pl.t}", extra="M")
+        if fn == "numpy.empty" and len(args) == 1 and set(kw) <= {"dtype"} and isinstance(args[0], ast.Tuple) and len(args[0].elts) == 2 \
+                and isinstance(args[0].elts[1], ast.Constant) and args[0].elts[1].value == 2:
+            n = self.need(self.expr(args[0].elts[0], env, binds), "Z", e)
+            return V("P", f"(np_empty_pairs {n.t})")
+        if fn == "getattr":
+            return V("OPQ")
         if fn == "numpy.array":
             if len(args) != 1 or set(kw) - {"dtype"}:
                 fail(e, "numpy.array arguments")
             v = self.expr(args[0], env, binds)
+            if v.kind == "EMPTYLIST":
+                # an empty array: of ints, or (returned where pairs are returned) of pairs
+                return V("EMPTYLIST", py=False)
+            if v.kind == "P":
+                return V("P", v.t, py=False)
             if v.kind == "L":
                 return V("L", v.t)
             if v.kind == "LPAIR":
@@ -375,6 +507,19 @@ class Fn:
         if fn in ("numpy.cumsum", "numpy.diff") and len(args) == 1 and not kw:
             a = self.need(self.expr(args[0], env, binds), "L", e)
             return V("L", f"({'cumsum' if fn.endswith('cumsum') else 'np_diff'} {paren(a.t)})")
+        if fn == "numpy.union1d" and len(args) == 2 and not kw:
+            a = self.need(self.expr(args[0], env, binds), "L", e)
+            b = self.need(self.expr(args[1], env, binds), "L", e)
+            return V("L", f"(union1d {paren(a.t)} {paren(b.t)})")
+        if fn == "numpy.zeros" and len(args) == 1 and set(kw) <= {"dtype"} and isinstance(args[0], ast.Attribute) and args[0].attr == "shape":
+            a = self.need(self.expr(args[0].value, env, binds), "L", e)
+            return V("L", f"(np_zeros_like {paren(a.t)})")
+        if fn == "numpy.intersect1d" and len(args) == 2 and set(kw) == {"assume_unique", "return_indices"} \
+                and all(isinstance(kw[k], ast.Constant) and kw[k].value is True for k in kw):
+            a = self.need(self.expr(args[0], env, binds), "L", e)
+            b = self.need(self.expr(args[1], env, binds), "L", e)
+            return V("T", items=[V("L", f"(np_isect_vals {paren(a.t)} {paren(b.t)})"), V("L", f"(np_isect_a {paren(a.t)} {paren(b.t)})"),
+                                 V("L", f"(np_isect_b {paren(a.t)} {paren(b.t)})")])
         if fn == "numpy.delete" and len(args) == 2 and not kw:
             a = self.need(self.expr(args[0], env, binds), "L", e)
             i = self.need(self.expr(args[1], env, binds), "Z", e)
@@ -403,7 +548,17 @@ class Fn:
                     return V("RES", f"g_post_init_cum {paren(gp.t)} {paren(cl.t)} {pl.t}", extra="M")
                 cl = self.need(self.expr(kw["gap_lengths"], env, binds), "L", e)
                 return V("RES", f"g_post_init_len {paren(gp.t)} {paren(cl.t)} {pl.t}", extra="M")
-            # methods of self
+            # singledispatch methods: the registration is chosen by the kind of the argument
+            if isinstance(recv, ast.Name) and recv.id in env and env[recv.id].kind == "M" and attr in ("shared_gaps", "minus_gaps") \
+                    and len(args) == 1 and not kw:
+                v = self.expr(args[0], env, binds)
+                key = f"{attr}:{'map' if v.kind == 'M' else 'arr' if v.kind == 'P' else '?'}"
+                if key not in SIGS:
+                    fail(e, f"{attr} of a {v.kind}")
+                name = self.tmp("r")
+                binds.append((name, f"{coqname(key)} {env[recv.id].t} {paren(v.t)}"))
+                return V(SIGS[key][1], name)
+            # methods of self / of another map
             if isinstance(recv, ast.Name) and recv.id in env and env[recv.id].kind == "M" and attr in SIGS:
                 pk, rk, pure = SIGS[attr]
                 if kw or len(args) != len(pk):
@@ -419,6 +574,17 @@ class Fn:
                 binds.append((name, t))
                 return V(rk, name)
             v = self.expr(recv, env, binds)
+            if attr == "flatten" and v.kind == "P" and not args:
+                return V("L", f"(flatten_pairs {paren(v.t)})")
+            if attr == "reshape" and v.kind == "L" and len(args) == 1 and isinstance(args[0], ast.Tuple) and len(args[0].elts) == 2 \
+                    and getattr(args[0].elts[1], "value", None) == 2:
+                return V("P", f"(pair_up {paren(v.t)})")
+            if attr == "get" and v.kind == "D" and len(args) == 2 and not kw:
+                k_ = self.need(self.expr(args[0], env, binds), "Z", e)
+                d_ = self.need(self.expr(args[1], env, binds), "Z", e)
+                return V("Z", f"(np_dict_get {paren(v.t)} {k_.t} {d_.t})")
+            if attr == "items" and v.kind == "D" and not args:
+                return V("D", v.t)
             if attr in ("copy",) and v.kind == "L" and not args:
                 return V("L", v.t, py=v.py)
             if attr == "tolist" and not args:
@@ -445,6 +611,8 @@ class Fn:
     def block(self, stmts, env, k):
         """k(env) -> term for what follows the block; None = end of the function"""
         if not stmts:
+            if k is None and self.rkind in ("GP", "GS"):
+                return "[]"
             if k is None:
                 if self.pure:
                     fail(None, f"{self.name}: a path of a pure function does not return")
@@ -455,6 +623,22 @@ class Fn:
         def cont(env2):
             return self.block(rest, env2, k)
 
+        if isinstance(s, ast.Break):
+            if not getattr(self, "break_k", None):
+                fail(s, "break outside a loop")
+            return self.break_k[-1](env)
+        if isinstance(s, ast.Continue):
+            if not getattr(self, "loop_k", None):
+                fail(s, "continue outside a loop")
+            return self.loop_k[-1](env)
+        if isinstance(s, ast.For):
+            return self.for_stmt(s, env, cont)
+        if isinstance(s, ast.Expr) and isinstance(s.value, ast.Yield):
+            if self.rkind not in ("GP", "GS"):
+                fail(s, "yield outside a generator")
+            return f"{self.yielded(s.value.value, env)} ::\n{cont(env)}"
+        if isinstance(s, ast.Return) and s.value is None and self.rkind in ("GP", "GS"):
+            return "[]"
         if isinstance(s, ast.Expr):
             if isinstance(s.value, ast.Constant) and isinstance(s.value.value, str):
                 return cont(env)
@@ -462,11 +646,21 @@ class Fn:
                     and isinstance(s.value.func.value, ast.Name) and len(s.value.args) == 1:
                 name = s.value.func.value.id
                 binds = []
-                a = self.need(self.expr(s.value.func.value, env, binds), "L", s)
-                x = self.need(self.expr(s.value.args[0], env, binds), "Z", s)
+                a = self.expr(s.value.func.value, env, binds)
+                x = self.expr(s.value.args[0], env, binds)
                 if not a.py:
                     fail(s, "append to an array")
+                if a.kind == "P" and x.kind == "T" and len(x.items) == 2 and all(w.kind == "Z" for w in x.items):
+                    return self.bind_name(name, V("P", f"({a.t} ++ [({x.items[0].t}, {x.items[1].t})])", py=True), env, binds, cont)
+                self.need(a, "L", s), self.need(x, "Z", s)
                 return self.bind_name(name, V("L", f"({a.t} ++ [{x.t}])", py=True), env, binds, cont)
+            if isinstance(s.value, ast.Call) and dotted(s.value.func) == "_update_lengths" and len(s.value.args) == 4 \
+                    and not s.value.keywords and isinstance(s.value.args[1], ast.Name):
+                binds = []
+                name = s.value.args[1].id
+                self.local_array(name, env, s)
+                ts = [paren(self.need(self.expr(a, env, binds), "L", s).t) for a in s.value.args]
+                return self.bind_name(name, V("L", f"(g_update_lengths {' '.join(ts)})"), env, binds, cont)
             if isinstance(s.value, ast.Call) and dotted(s.value.func) in ("self._serialisable.pop",):
                 return cont(env)
             fail(s, "expression statement")
@@ -508,6 +702,105 @@ class Fn:
             return self.if_stmt(s, env, cont, rest, k)
         fail(s, f"statement {type(s).__name__}")
 
+    def yielded(self, e, env):
+        """Span(a, b) / LostSpan(n) / cls(n) with cls one of LostSpan, TerminalPadding"""
+        if not isinstance(e, ast.Call) or e.keywords:
+            fail(e, "yield of something other than a span")
+        binds = []
+        f = e.func
+        name = f.id if isinstance(f, ast.Name) else None
+        if name in env and env[name].kind == "CLS":
+            name = "LostSpan"
+        vals = [self.need(self.expr(a, env, binds), "Z", e) for a in e.args]
+        if binds:
+            fail(e, "raising call in a yield")
+        if name == "Span" and len(vals) == 2:
+            return f"({vals[0].t}, {vals[1].t})" if self.rkind == "GP" else f"ISpan {vals[0].t} {vals[1].t}"
+        if name in ("LostSpan", "TerminalPadding") and len(vals) == 1 and self.rkind == "GS":
+            return f"ILost {vals[0].t}"
+        fail(e, "yield of this value")
+
+    def for_stmt(self, s, env, cont):
+        """for [i,] x in [enumerate](<array>) / for [i,] (a, b) in [enumerate](<rows>): a structural fixpoint over the list; the
+        variables that are defined before the loop and assigned in its body are its state; what follows the loop is its []
+        case (and the target of `break`)"""
+        if s.orelse:
+            fail(s, "for ... else")
+        binds = []
+        it = s.iter
+        counter = None
+        target = s.target
+        if isinstance(it, ast.Call) and dotted(it.func) == "enumerate" and len(it.args) == 1 and not it.keywords:
+            if not (isinstance(target, ast.Tuple) and len(target.elts) == 2 and isinstance(target.elts[0], ast.Name)):
+                fail(s, "enumerate target")
+            counter, target = target.elts[0].id, target.elts[1]
+            arr = self.expr(it.args[0], env, binds)
+        else:
+            arr = self.expr(it, env, binds)
+        if binds:
+            fail(s, "raising call in a loop header")
+        if arr.kind == "L" and isinstance(target, ast.Name):
+            elems = [target.id]
+            ety = "Z"
+        elif arr.kind == "P" and isinstance(target, ast.Tuple) and len(target.elts) == 2 and all(isinstance(x, ast.Name) for x in target.elts):
+            elems = [x.id for x in target.elts]
+            ety = "Z * Z"
+        else:
+            fail(s, f"loop over a {arr.kind} with this target")
+        bound = set(elems) | ({counter} if counter else set())
+        state = sorted(n for n in assigned(s.body) if n in env and n not in bound)
+        kinds = {}
+        for n in state:
+            k = env[n].kind
+            if k == "NONE" or k == "OPT":
+                k = "OPT"
+            elif k not in ("Z", "L", "B", "P", "D"):
+                fail(s, f"loop assigns {n}, which cannot be carried")
+            kinds[n] = k
+        self.fresh += 1
+        loop, xs = f"loop_{self.fresh}", f"xs_{self.fresh}"
+        cnt = cn(counter) if counter else f"i_{self.fresh}"
+        env_in = dict(env)
+        for n in state:
+            env_in[n] = V(kinds[n], cn(n), py=env[n].py)
+        env_body = dict(env_in)
+        for x in elems:
+            env_body[x] = V("Z", cn(x))
+        if counter:
+            env_body[counter] = V("Z", cnt)
+
+        def args_of(e2):
+            return "".join(" " + paren(coerce(e2[n], kinds[n], s)) for n in state)
+
+        def next_iter(e2):
+            return f"{loop} ({cnt} + 1) {xs}{args_of(e2)}"
+
+        def after(e2):
+            # only the state survives the loop
+            e3 = dict(env_in)
+            out = ""
+            for n in state:
+                t = coerce(e2[n], kinds[n], s)
+                if t != cn(n):
+                    out += f"let {cn(n)} := {t} in\n"
+            return out + cont(e3)
+
+        for attr in ("loop_k", "break_k"):
+            if getattr(self, attr, None) is None:
+                setattr(self, attr, [])
+        self.loop_k.append(next_iter)
+        self.break_k.append(after)
+        body = self.block(s.body, env_body, next_iter)
+        self.loop_k.pop()
+        self.break_k.pop()
+        done = after(env_in)
+        rt = COQTYPE[self.rkind] if self.pure else f"res ({COQTYPE[self.rkind]})"
+        params = "".join(f" ({cn(n)} : {COQTYPE[kinds[n]]})" for n in state)
+        init = "".join(" " + paren(coerce(env[n], kinds[n], s)) for n in state)
+        pat = cn(elems[0]) if len(elems) == 1 else f"({cn(elems[0])}, {cn(elems[1])})"
+        return (f"(fix {loop} ({cnt} : Z) ({xs} : list ({ety})){params} {{struct {xs}}} : {rt} :=\n"
+                f"match {xs} with\n| [] =>\n{done}\n| {pat} :: {xs} =>\n{body}\nend) 0 {paren(arr.t)}{init}")
+
     def static_true(self, test, env):
         return self.name == "__post_init__"      # `assert gap_lengths is None or self.cum_gap_lengths is None`: one of the two is None in each form
 
@@ -518,13 +811,32 @@ class Fn:
             fail(node, "expected a pair of arrays")
         if kind == "M" and v.kind == "M":
             return v.t
+        if kind == "OPAIR" and v.kind == "T" and len(v.items) == 2:
+            if all(x.kind == "Z" for x in v.items):
+                return f"Some ({v.items[0].t}, {v.items[1].t})"
+            if all(x.kind == "NONE" for x in v.items):
+                return "None"
+        if v.kind == "EMPTYLIST" and kind in ("L", "P"):
+            return "[]"
         if v.kind != kind:
             fail(node, f"returns a {v.kind}, expected {kind}")
         return v.t
 
+    def appends_pairs(self, name):
+        for n in ast.walk(self.node):
+            if isinstance(n, ast.Call) and isinstance(n.func, ast.Attribute) and n.func.attr == "append" \
+                    and isinstance(n.func.value, ast.Name) and n.func.value.id == name and n.args and isinstance(n.args[0], ast.Tuple):
+                return True
+        return False
+
     def bind_name(self, name, v, env, binds, cont):
         env2 = dict(env)
-        if v.kind in ("Z", "L", "B", "P"):
+        if v.kind == "EMPTYLIST":
+            v = V("P" if self.appends_pairs(name) else "L", "[]", py=v.py)
+        if v.kind in ("OPAIR", "OPT") and v.t is not None:
+            env2[name] = V(v.kind, cn(name))
+            return self.with_binds(binds, f"let {cn(name)} := {v.t} in\n{cont(env2)}")
+        if v.kind in ("Z", "L", "B", "P", "D"):
             env2[name] = V(v.kind, cn(name), py=v.py, extra=(v.extra if v.kind == "L" and v.extra != name else None))
             return self.with_binds(binds, f"let {cn(name)} := {v.t} in\n{cont(env2)}")
         if v.kind == "RES":
@@ -564,16 +876,38 @@ class Fn:
                 env2 = dict(env)
                 env2[names[0]] = V("Z", cn(names[0]))
                 return self.with_binds(binds, f"match {v.t} with\n| [{cn(names[0])}] =>\n{cont(env2)}\n| _ => Err E_Value\nend")
+            if v.kind == "OPAIR" and len(names) == 2:
+                env2 = dict(env)
+                env2[names[0]] = self.opc(v.t, 0, env, s)
+                env2[names[1]] = self.opc(v.t, 1, env, s)
+                return self.with_binds(binds, cont(env2))
             if v.kind == "T" and len(v.items) == len(names):
                 env2 = dict(env)
                 out = ""
                 for n, item in zip(names, v.items):
+                    if n == "_":
+                        continue
                     if item.kind not in ("Z", "L"):
                         fail(s, "tuple unpacking of this value")
                     out += f"let {cn(n)} := {item.t} in\n"
                     env2[n] = V(item.kind, cn(n), py=item.py)
                 return self.with_binds(binds, out + cont(env2))
             fail(s, "tuple assignment")
+        if isinstance(target, ast.Subscript) and isinstance(target.value, ast.Name) and target.value.id in env \
+                and env[target.value.id].kind == "D":
+            name = target.value.id
+            k_ = self.need(self.expr(target.slice, env, binds), "Z", s)
+            v = self.need(self.expr(value, env, binds), "Z", s)
+            return self.bind_name(name, V("D", f"(np_dict_set {paren(env[name].t)} {k_.t} {v.t})"), env, binds, cont)
+        if isinstance(target, ast.Subscript) and isinstance(target.value, ast.Name) and target.value.id in env \
+                and env[target.value.id].kind == "P":
+            name = target.value.id
+            a = env[name]
+            i = self.need(self.expr(target.slice, env, binds), "Z", s)
+            v = self.expr(value, env, binds)
+            if v.kind != "T" or len(v.items) != 2 or any(w.kind != "Z" for w in v.items):
+                fail(s, "row assignment of something other than a pair of ints")
+            return self.bind_name(name, V("P", f"(np_set_pair {paren(a.t)} {i.t} ({v.items[0].t}, {v.items[1].t}))", py=a.py), env, binds, cont)
         if isinstance(target, ast.Subscript) and isinstance(target.value, ast.Name):
             name = target.value.id
             a = self.local_array(name, env, s)
@@ -583,7 +917,10 @@ class Fn:
                 k = self.const_lower_slice(sl, s)
                 self.need(v, "L", s)
                 return self.bind_name(name, V("L", f"(firstn {k} {paren(a.t)} ++ {v.t})", py=a.py), env, binds, cont)
-            i = self.need(self.expr(sl, env, binds), "Z", s)
+            i = self.expr(sl, env, binds)
+            if i.kind == "L" and v.kind == "L" and not a.py:
+                return self.bind_name(name, V("L", f"(np_set_at {paren(a.t)} {paren(i.t)} {paren(v.t)})"), env, binds, cont)
+            self.need(i, "Z", s)
             self.need(v, "Z", s)
             return self.bind_name(name, V("L", f"(np_set {paren(a.t)} {i.t} {v.t})", py=a.py), env, binds, cont)
         if isinstance(target, ast.Attribute) and isinstance(target.value, ast.Name) and target.value.id == "self" \
@@ -622,6 +959,8 @@ class Fn:
             a = env[t.id]
             if a.kind == "Z" and v.kind == "Z":
                 return self.bind_name(t.id, V("Z", f"({a.t} {sym} {v.t})"), env, binds, cont)
+            if a.kind == "P" and v.kind == "P" and a.py and v.py and sym == "+":
+                return self.bind_name(t.id, V("P", f"({a.t} ++ {v.t})", py=True), env, binds, cont)
             if a.kind == "L" and v.kind == "Z" and not a.py:
                 self.local_array(t.id, env, s)
                 return self.bind_name(t.id, V("L", f"(map (fun p_ => p_ {sym} {v.t}) {paren(a.t)})"), env, binds, cont)
@@ -630,67 +969,127 @@ class Fn:
             a = self.local_array(t.value.id, env, s)
             if isinstance(t.slice, ast.Slice):
                 k = self.const_lower_slice(t.slice, s)
-                if sym != "+" or v.kind != "L":
+                if sym not in "+-" or v.kind != "L":
                     fail(s, "a[k:] op= e")
-                return self.bind_name(t.value.id, V("L", f"(firstn {k} {paren(a.t)} ++ add2 (skipn {k} {paren(a.t)}) {paren(v.t)})", py=a.py),
+                op2 = "add2" if sym == "+" else "sub2"
+                return self.bind_name(t.value.id, V("L", f"(firstn {k} {paren(a.t)} ++ {op2} (skipn {k} {paren(a.t)}) {paren(v.t)})", py=a.py),
                                       env, binds, cont)
-            i = self.need(self.expr(t.slice, env, binds), "Z", s)
+            i = self.expr(t.slice, env, binds)
+            if i.kind == "L" and v.kind == "L" and not a.py and sym == "+":
+                return self.bind_name(t.value.id, V("L", f"(np_add_at {paren(a.t)} {paren(i.t)} {paren(v.t)})"), env, binds, cont)
+            self.need(i, "Z", s)
             self.need(v, "Z", s)
             if sym == "-":
                 return self.bind_name(t.value.id, V("L", f"(sub_at {paren(a.t)} {i.t} {v.t})", py=a.py), env, binds, cont)
             fail(s, "a[i] op= e with op other than -")
         fail(s, "augmented assignment target")
 
+    def opt_test(self, test, env):
+        """`x is not None` / `x is None` where x is a component of an optional pair that is not yet known: (term, negated)"""
+        if isinstance(test, ast.Compare) and len(test.ops) == 1 and isinstance(test.ops[0], (ast.Is, ast.IsNot)) \
+                and isinstance(test.comparators[0], ast.Constant) and test.comparators[0].value is None:
+            try:
+                v = self.expr(test.left, dict(env), [])
+            except TranslatorError:
+                return None
+            if v.kind == "OPC":
+                return v.items[0], isinstance(test.ops[0], ast.Is)
+        return None
+
     def if_stmt(self, s, env, cont, rest, k):
         # `if item.step is not None: raise ...` : the step of the slice is statically None
         binds = []
         env_t = dict(env)
-        c = self.cond(s.test, env_t, binds)
-        if binds:
-            fail(s, "raising call inside a condition")
-        walrus = {n: v for n, v in env_t.items() if n not in env}
-        if c in ("negb (true)", "false"):
-            return self.block(s.orelse, env, lambda e2: cont(e2)) if s.orelse else cont(env)
-        if c in ("negb (false)", "true"):
-            return self.block(s.body, env_t, lambda e2: cont(strip(e2, walrus)))
+        ot = self.opt_test(s.test, env)
+        if ot is not None:
+            t, negated = ot
+            self.fresh += 1
+            p0, p1 = f"p0_{self.fresh}", f"p1_{self.fresh}"
+            env_some = dict(env)
+            env_some["$known:" + t] = (p0, p1)
+            some_branch, none_branch = (s.orelse, s.body) if negated else (s.body, s.orelse)
+
+            def mk_if(some_term, none_term):
+                return f"match {t} with\n| Some ({p0}, {p1}) => ({some_term})\n| None => ({none_term})\nend"
+
+            env_b, env_o, body_b, body_o = env_some, env, some_branch, none_branch
+            walrus = {}
+        else:
+            c = self.cond(s.test, env_t, binds)
+            if binds:
+                fail(s, "raising call inside a condition")
+            walrus = {n: v for n, v in env_t.items() if n not in env}
+            if c in ("negb (true)", "false"):
+                return self.block(s.orelse, env, lambda e2: cont(e2)) if s.orelse else cont(env)
+            if c in ("negb (false)", "true"):
+                return self.block(s.body, env_t, lambda e2: cont(strip(e2, walrus)))
+
+            def mk_if(then_term, else_term):
+                return f"if {c}\nthen ({then_term})\nelse ({else_term})"
+
+            env_b, env_o, body_b, body_o = env_t, env, s.body, s.orelse
         for n in ast.walk(s):
             if isinstance(n, (ast.Assign, ast.AugAssign)):
-                for t in (n.targets if isinstance(n, ast.Assign) else [n.target]):
-                    if isinstance(t, ast.Attribute):
+                for t_ in (n.targets if isinstance(n, ast.Assign) else [n.target]):
+                    if isinstance(t_, ast.Attribute):
                         fail(s, "assignment to an attribute under a condition that is not decided statically")
+
+        def leave(e2):
+            e3 = strip(e2, walrus)
+            return {n: v for n, v in e3.items() if not n.startswith("$known:") or n in env}
+
         exits = has_exit(s.body) or has_exit(s.orelse)
         if exits:
             # continuation style: what follows is repeated in every branch that falls through
-            body = self.block(s.body, env_t, lambda e2: cont(strip(e2, walrus)))
-            orelse = self.block(s.orelse, env, cont) if s.orelse else cont(env)
-            return f"if {c}\nthen ({body})\nelse ({orelse})"
+            body = self.block(body_b, env_b, lambda e2: cont(leave(e2)))
+            orelse = self.block(body_o, env_o, lambda e2: cont(leave(e2))) if body_o else cont(env)
+            return mk_if(body, orelse)
         # merge of the variables assigned in the branches
-        assigned_b, assigned_o = assigned(s.body), assigned(s.orelse)
+        assigned_b, assigned_o = assigned(body_b), assigned(body_o)
         names = sorted(n for n in assigned_b | assigned_o if n in env or (n in assigned_b and n in assigned_o))
         if not names:
             return cont(env)
-
-        def pack(e2):
-            for n in names:
-                if n not in e2 or e2[n].kind not in ("Z", "L", "B", "P"):
-                    fail(s, f"variable {n} cannot be merged")
-            return tup([e2[n].t for n in names])
-
-        tb = self.block(s.body, env_t, pack)
-        to = self.block(s.orelse, env, pack) if s.orelse else pack(env)
         env2 = dict(env)
         kinds = {}
         for n in names:
-            kb = kind_after(self, s.body, env_t, n)
-            ko = kind_after(self, s.orelse, env, n) if s.orelse else env[n]
-            if kb.kind != ko.kind or kb.py != ko.py:
-                fail(s, f"variable {n} has different kinds in the branches")
-            env2[n] = V(kb.kind, cn(n), py=kb.py)
+            kb = kind_after(self, body_b, env_b, n) if body_b else env[n]
+            ko = kind_after(self, body_o, env_o, n) if body_o else env[n]
+            kinds[n] = join_kind(kb, ko, s)
+            if kinds[n] not in ("Z", "L", "B", "P", "D", "OPT"):
+                fail(s, f"variable {n} cannot be merged")
+            env2[n] = V(kinds[n], cn(n), py=kb.py)
+
+        def pack(e2):
+            for n in names:
+                if n not in e2:
+                    fail(s, f"variable {n} cannot be merged")
+            return tup([coerce(e2[n], kinds[n], s) for n in names])
+
+        tb = self.block(body_b, env_b, pack) if body_b else pack(env)
+        to = self.block(body_o, env_o, pack) if body_o else pack(env)
         # names assigned in only one branch and not defined before become undefined
         for n in (assigned_b | assigned_o) - set(names):
             env2.pop(n, None)
         pat = cn(names[0]) if len(names) == 1 else "'" + tup([cn(n) for n in names])
-        return f"let {pat} :=\n  if {c}\n  then ({tb})\n  else ({to}) in\n{cont(env2)}"
+        return f"let {pat} :=\n  {mk_if(tb, to)} in\n{cont(env2)}"
+
+
+def coerce(v, kind, node=None):
+    if v.kind == kind:
+        return v.t
+    if kind == "OPT" and v.kind == "Z":
+        return f"(Some {v.t})"
+    if kind == "OPT" and v.kind == "NONE":
+        return "None"
+    fail(node, f"a {v.kind} where a {kind} is needed")
+
+
+def join_kind(a, b, node=None):
+    if a.kind == b.kind and a.py == b.py:
+        return a.kind
+    if {a.kind, b.kind} <= {"Z", "OPT", "NONE"}:
+        return "OPT"
+    fail(node, f"kinds {a.kind}/{b.kind} cannot be merged")
 
 
 def kind_after(fn, stmts, env, name):
@@ -751,7 +1150,7 @@ def dotted(f):
 def has_exit(stmts):
     for s in stmts or []:
         for n in ast.walk(s):
-            if isinstance(n, (ast.Return, ast.Raise, ast.Yield, ast.YieldFrom)):
+            if isinstance(n, (ast.Return, ast.Raise, ast.Yield, ast.YieldFrom, ast.Continue, ast.Break)):
                 return True
     return False
 
@@ -796,8 +1195,8 @@ class Translator:
     def find(self):
         cls = None
         for n in self.tree.body:
-            if isinstance(n, ast.FunctionDef) and n.name == "_gap_spans":
-                self.defs["_gap_spans"] = n
+            if isinstance(n, ast.FunctionDef) and n.name in ("_gap_spans", "_update_lengths", "span_and_span", "coords_intersect", "coords_minus_coords", "gap_coords_to_map"):
+                self.defs[n.name] = n
             if isinstance(n, ast.ClassDef) and n.name == "IndelMap":
                 cls = n
         if cls is None or "_gap_spans" not in self.defs:
@@ -811,13 +1210,33 @@ class Translator:
                         if "__getitem__" + kind in self.defs:
                             fail(n, f"two registrations of __getitem__ for {kind}")
                         self.defs["__getitem__" + kind] = n
+                    for d in n.decorator_list:
+                        if isinstance(d, ast.Attribute) and d.attr == "register" and isinstance(d.value, ast.Name) \
+                                and d.value.id in ("shared_gaps", "minus_gaps"):
+                            which = "map" if (isinstance(ann, ast.Constant) and ann.value == "IndelMap") or kind == "IndelMap" else \
+                                    "arr" if dotted(ann) in ("numpy.ndarray", "ndarray") else None
+                            if which is None:
+                                fail(n, f"registration of {d.value.id} for an unknown type")
+                            key = f"{d.value.id}:{which}"
+                            if key in self.defs:
+                                fail(n, f"two registrations {key}")
+                            self.defs[key] = n
+                elif n.name in ("shared_gaps", "minus_gaps"):
+                    # the singledispatch base: taken for every argument that is not an ndarray (an IndelMap)
+                    if not any(dotted(d) == "functools.singledispatchmethod" for d in n.decorator_list):
+                        fail(n, f"{n.name} is not a singledispatchmethod")
+                    self.defs[n.name + ":map"] = n
                 elif n.name in SIGS or n.name == "__post_init__":
                     if n.name in self.defs:
                         fail(n, f"two definitions of {n.name}")
                     self.defs[n.name] = n
+        self.empty_is_none_pair = False
+        for n in self.tree.body:
+            if isinstance(n, ast.Assign) and len(n.targets) == 1 and isinstance(n.targets[0], ast.Name) and n.targets[0].id == "_empty":
+                self.empty_is_none_pair = ast.dump(n.value) == ast.dump(ast.parse("None, None", mode="eval").body)
         for f in list(SIGS) + ["__post_init__"]:
             if f not in self.defs:
-                fail(None, f"function {f} not found in IndelMap")
+                fail(None, f"function {f} not found")
         for n in cls.body:
             if isinstance(n, ast.FunctionDef) and n.name in ("__getattr__", "__getattribute__", "__setattr__", "__bool__", "__new__"):
                 fail(n, f"IndelMap defines {n.name}")
@@ -836,12 +1255,17 @@ class Translator:
         node = self.defs[key]
         pk, rk, pure = SIGS[key]
         fn = Fn(self, key, rk, pure)
+        fn.node = node
         params = [a.arg for a in node.args.args]
         if node.args.vararg or node.args.kwarg or node.args.kwonlyargs:
             fail(node, "star arguments")
         env = {}
         sig = []
-        if key != "_gap_spans":
+        if key == "from_aligned_segments":
+            if params[0] != "cls":
+                fail(node, "from_aligned_segments is not a classmethod")
+            params = params[1:]
+        elif key not in ("_gap_spans", "_update_lengths", "span_and_span", "coords_intersect", "coords_minus_coords", "gap_coords_to_map"):
             if params[0] != "self":
                 fail(node, "first parameter is not self")
             env["self"] = V("M", "self")
@@ -856,12 +1280,27 @@ class Translator:
             elif k == "M":
                 env[p] = V("M", p)
                 sig.append(f"({p} : imap)")
+            elif k == "D":
+                env[p] = V("D", cn(p))
+                sig.append(f"({cn(p)} : list (Z * Z))")
+            elif k == "T2":
+                env[p] = V("T", items=[V("Z", f"(fst {cn(p)})"), V("Z", f"(snd {cn(p)})")])
+                sig.append(f"({cn(p)} : Z * Z)")
+            elif k == "OPT":
+                env[p] = V("OPT", cn(p))
+                sig.append(f"({cn(p)} : option Z)")
             else:
-                env[p] = V(k, cn(p), field=(key == "_gap_spans"))
+                env[p] = V(k, cn(p), field=(k == "L" and (key == "_gap_spans" or (key == "_update_lengths" and p != params[1]))))
                 sig.append(f"({cn(p)} : {COQTYPE[k]})")
         # defaults: only `slice_stop: bool = False` style literals are tolerated (every call in the kernel is positional)
-        body = fn.block(node.body, env, None)
-        rt = COQTYPE[rk] if pure else f"res {COQTYPE[rk]}"
+        if key == "_update_lengths":
+            mut = params[1]
+            if has_exit(node.body):
+                fail(node, "_update_lengths returns / raises")
+            body = fn.block(node.body, env, lambda e2: e2[mut].t)
+        else:
+            body = fn.block(node.body, env, None)
+        rt = COQTYPE[rk] if pure else f"res ({COQTYPE[rk]})"
         self.record(key, node)
         rec = "Fixpoint" if False else "Definition"
         return f"{rec} {coqname(key)} {' '.join(sig)} : {rt} :=\n{body}."
@@ -914,8 +1353,10 @@ class Translator:
         out.append("")
         out.append(self.post_init("len"))
         out.append("")
-        order = ["_gap_spans", "__len__", "get_gap_lengths", "get_seq_index", "get_align_index", "__getitem__slice", "__getitem__int",
-                 "__add__", "__mul__", "nucleic_reversed", "get_coordinates", "get_gap_coordinates", "get_gap_align_coordinates"]
+        order = ["_gap_spans", "_update_lengths", "__len__", "get_gap_lengths", "get_seq_index", "get_align_index", "__getitem__slice", "__getitem__int",
+                 "__add__", "__mul__", "nucleic_reversed", "get_coordinates", "get_gap_coordinates", "get_gap_align_coordinates", "merge_maps", "nongap", "spans",
+                 "span_and_span", "coords_intersect", "coords_minus_coords", "shared_gaps:arr", "shared_gaps:map",
+                 "minus_gaps:arr", "minus_gaps:map", "joined_segments", "gap_coords_to_map", "from_aligned_segments"]
         for f in order:
             out.append(self.function(f))
             out.append("")
